@@ -1,5 +1,7 @@
 import Dcg.Proofs.FieldLift
 import Dcg.Proofs.FieldUnionMember
+import Dcg.Proofs.FieldRef
+import Dcg.Proofs.FieldInherit
 /-
 C05 — required, nullable and default semantics of each member are carried over.
 
@@ -22,7 +24,7 @@ those families, so the hypothesis of the partial theorem excludes nothing more t
 Only property theorems live here; the exhaustive kernel evaluations are in `Dcg/Proofs/Field*.lean`.
 -/
 namespace Dcg.Props.C05
-open Dcg.Model.Field Dcg.Proofs.Field Dcg.Gen.FieldTemplates
+open Dcg.Model.Field Dcg.Proofs.Field Dcg.Gen.FieldTemplates Dcg.Model.TypedDict
 
 /-! ### The class templates, as regenerated on this run -/
 
@@ -552,5 +554,337 @@ theorem union_member_witness :
     d7 uo.asVec = true ∧
     ub.valid = true ∧ ub.flag = false ∧ renderU ub = ⟨true, false, .no, .none⟩ ∧ (semU ub).acceptsNull = true ∧
     (semU ub).mustSupply = true := by decide
+
+/-! ### `$ref`-typed members: a reference to a definition that admits null
+
+`DataType.type_hint` marks a type optional when the model its reference points to is nullable
+(`type: ["object", "null"]`). The test is evaluated when the modules are rendered — after every
+definition of every document has been parsed — so it must not matter where the definition stands
+relative to the schema that refers to it. Model: `Dcg.Model.FieldRef`. -/
+
+/-- The rule reads the DEFINITION, wherever it stands among the parse events: when `r` is defined
+(once) as nullable / not nullable, every `DataType` that refers to `r` ends up with `is_optional`
+equal to that — whether it was built before or after the definition was parsed, in the same
+document or in another one, and whatever else was parsed in between. -/
+theorem ref_rule_reads_the_definition (evs : List Ev) (r : Nat) (n : Bool)
+    (hm : Ev.define r n ∈ evs) (hn : (definedRefs evs).Nodup) : lazyOptional evs r = n :=
+  lazyOptional_of_mem hm hn
+
+/-- ORDER INDEPENDENCE, any number of definitions and members: reordering the parse events in any
+way (definitions before or after their users, files loaded in another order) changes `is_optional`
+of no reference. -/
+theorem ref_rule_independent_of_definition_order (a b : List Ev) (h : a.Perm b)
+    (hn : (definedRefs a).Nodup) (r : Nat) : lazyOptional a r = lazyOptional b r :=
+  lazyOptional_perm h hn r
+
+/-- non-vacuity: two definitions (one nullable), three members, two orders -/
+example : lazyFlags [.use 0, .define 1 false, .use 1, .define 0 true, .use 0] = [true, false, true] ∧
+    lazyFlags [.define 0 true, .define 1 false, .use 0, .use 1, .use 0] = [true, false, true] := by decide
+
+/-- What the guarded regression looks like: the same test evaluated when the `DataType` is
+CONSTRUCTED sees `source = None` for a definition parsed later — the forward reference loses its
+null while the backward one keeps it (so reordering the definitions hides the fault). -/
+theorem ref_rule_at_construction_loses_forward_references :
+    eagerFlags [.use 0, .define 0 true] = [false] ∧ lazyFlags [.use 0, .define 0 true] = [true] ∧
+    eagerFlags [.define 0 true, .use 0] = [true] ∧ lazyFlags [.define 0 true, .use 0] = [true] := by decide
+
+/-- The member: its field record, its rendered shape and what it means in the target library do not
+depend on whether the reference is a forward or a backward one. -/
+theorem ref_member_independent_of_definition_order (r : RefVec) (f : Bool) :
+    fromRef { r with forward := f } = fromRef r ∧ renderR { r with forward := f } = renderR r ∧
+    semR { r with forward := f } = semR r := by
+  have hfl : ({ r with forward := f } : RefVec).flag = r.flag := by rw [RefVec.flag_eq, RefVec.flag_eq]
+  have h1 : fromRef { r with forward := f } = fromRef r := by
+    unfold fromRef RefVec.asVec
+    rw [hfl]
+  refine ⟨h1, ?_, ?_⟩
+  · simp only [renderR, renderRD, h1]
+  · simp only [semR, renderR, renderRD, h1]
+
+/-- Reduction to the scalar space: a `$ref`-typed member renders as the scalar member `asVec`, whose
+null source is "type list" exactly when the definition is `type: [..., "null"]` — in either order.
+Every theorem above about `render` / `sem` of valid scalar vectors speaks about `$ref`-typed members
+through `asVec`. -/
+theorem ref_member_reduces_to_scalar (r : RefVec) :
+    renderR r = render r.asVec ∧ semR r = sem r.asVec ∧
+    r.asVec.nullsrc = (if definitionNullable r.target then .typelist else .no) := by
+  refine ⟨renderR_eq r, semR_eq r, ?_⟩
+  simp only [RefVec.asVec, RefVec.flag_eq]
+
+/-- FULL STRENGTH of clause 5 for `$ref`-typed members (false on the pinned tree, see
+`ref_keyword_on_definition_witness`) -/
+def ref_member_accepts_null_full : Prop :=
+  ∀ r : RefVec, r.valid = true → r.admitsNull = true → (semR r).acceptsNull = true
+
+/-- CLAUSE 5 for `$ref`-typed members: a member that refers to a definition whose type list contains
+"null" accepts null — every kind, every option vector, required or not, wherever the `required`
+entry is written, FORWARD OR BACKWARD reference. -/
+theorem ref_member_accepts_null (r : RefVec) (ht : r.target = .typelist) : (semR r).acceptsNull = true := by
+  apply semOf_acceptsNull_of_opt
+  apply renderFieldD_opt_of_dio
+  show r.flag = true
+  rw [RefVec.flag_eq, ht]; rfl
+
+/-- the excluded family is real: the definition admits null through the OpenAPI keyword
+(`nullable: true` next to `type: object`); the keyword is not read for a model, so a required member
+referring to it is written `n: T` — also under strict-nullable -/
+theorem ref_keyword_on_definition_witness :
+    let r : RefVec := ⟨⟨.v2, .no, true, .none, .scalar, false, ⟨true, false, false, false, false, false⟩, .own, .plain, false⟩, .flag, true⟩
+    r.valid = true ∧ r.admitsNull = true ∧ r.keywordOnDefinition = true ∧
+    renderR r = ⟨false, false, .no, .none⟩ ∧ (semR r).acceptsNull = false := by decide
+
+theorem ref_member_accepts_null_refuted : ¬ ref_member_accepts_null_full := by
+  intro h
+  have := h ⟨⟨.v2, .no, true, .none, .scalar, false, ⟨true, false, false, false, false, false⟩, .own, .plain, false⟩, .flag, true⟩
+    (by decide) (by decide)
+  revert this; decide
+
+/-- CLAUSES 1/6 for `$ref`-typed members, EXACT: a member the parser keeps required need not be
+supplied precisely in the three scalar families evaluated on `asVec` (D7: the v2 template appends
+`= None` because `is_optional` got set; the same in the msgspec template; pydantic-1 bare `Optional`). -/
+theorem ref_member_required_exact (r : RefVec) (hv : r.valid = true) (ho : r.asVec.omittable = false) :
+    (semR r).mustSupply = false ↔ (d7 r.asVec || d7m r.asVec || v1Bare r.asVec) = true := by
+  have hva : r.asVec.valid = true := by
+    simp only [RefVec.valid, Bool.and_eq_true] at hv; exact hv.1
+  rw [semR_eq]
+  exact effectively_required_exact r.asVec hva ho
+
+/-- A required `$ref`-typed member whose definition is not nullable must be supplied — full strength. -/
+theorem ref_member_plain_definition_must_supply (r : RefVec) (hv : r.valid = true)
+    (hr : r.base.inreq = true) (hd : r.base.dflt = .none) (hf : r.base.opts.fo = false)
+    (ht : definitionNullable r.target = false) : (semR r).mustSupply = true := by
+  have hva : r.asVec.valid = true := by
+    simp only [RefVec.valid, Bool.and_eq_true] at hv; exact hv.1
+  rw [semR_eq]
+  refine required_nonnullable_must_supply r.asVec hva hr hd hf ?_
+  simp [Vec.admitsNull, RefVec.asVec, RefVec.flag_eq, ht, NullSrc.admitsNull]
+
+/-- non-vacuity and the defect families met through a reference: a required member referring to a
+nullable definition, forward reference, is `n: Optional[T]` for dataclasses (must be supplied, accepts
+null) and `n: Optional[T] = None` in pydantic-2 output (D7) -/
+theorem ref_member_witness :
+    let o : Opts := ⟨false, false, false, false, false, false⟩
+    let dc : RefVec := ⟨⟨.dc, .no, true, .none, .scalar, false, o, .own, .plain, false⟩, .typelist, true⟩
+    let v2 : RefVec := ⟨⟨.v2, .no, true, .none, .scalar, false, o, .own, .plain, false⟩, .typelist, true⟩
+    dc.valid = true ∧ renderR dc = ⟨true, false, .no, .none⟩ ∧ (semR dc).mustSupply = true ∧ (semR dc).acceptsNull = true ∧
+    v2.valid = true ∧ renderR v2 = ⟨true, false, .no, .lit .none⟩ ∧ d7 v2.asVec = true := by decide
+
+/-! ### Inherited members: a `required` entry of a subclass schema for a member it inherits
+
+`S = allOf: [{$ref: B}, …]` lists a member of `B` as required without declaring it again. The member
+must then be required in `S` (clause 1), whatever the model kind and — for TypedDict — whichever syntax
+the classes are written in. Model: `Dcg.Model.FieldInherit`, `Dcg.Model.TypedDict`. -/
+
+/-- Reduction: for an inherited optional member listed by the schema that OWNS the allOf, the field the
+subclass gets (`__override_required_field`: a copy of the base's field with `required = True`) is the
+field record — hence the rendered member — of the same member declared by the subclass itself in the
+owner form, as long as `--force-optional` / `--use-default` do not apply. Every theorem above about
+`render` / `sem` of scalar vectors therefore speaks about required-only overrides. -/
+theorem inherited_override_as_declared_by_owner (i : IVec) (ho : i.relist = .owner)
+    (hr : i.base.inreq = false) (hv : i.base.via = .own) (hf : i.base.opts.fo = false)
+    (hu : (i.base.opts.ud && i.base.dflt.given) = false) :
+    fromInherit i = fromSchema { i.base with inreq := true, via := .owner } ∧
+    renderI i = render { i.base with inreq := true, via := .owner } := by
+  have h := asOverride_eq_owner i.base hr hv hf hu
+  have hov : i.overridden = true := by simp [IVec.overridden, ho]
+  refine ⟨by simp only [fromInherit, hov, if_true, h], ?_⟩
+  simp only [renderI, IVec.overrideShape, overrideShapeD, hov, if_true, Option.getD_some, h]
+  rfl
+
+/-- FULL STRENGTH of clause 1 for inherited members (false on the pinned tree): listed by the subclass
+schema in any of the three places, no default, not relaxed ⇒ must be supplied. -/
+def inherited_relisted_must_supply_full : Prop :=
+  ∀ i : IVec, i.valid = true → i.relist ≠ .no → i.base.dflt = .none → i.base.opts.fo = false →
+    (semI i).mustSupply = true
+
+/-- a `required` entry written in an allOf ITEM (`allOf: [{$ref: B}, {required: [n]}]`) is never applied
+to an inherited member: the subclass has no field of its own and the member stays `n: Optional[str] = None` -/
+theorem relisted_in_allof_item_witness :
+    let i : IVec := ⟨⟨.v2, .no, false, .none, .scalar, false, ⟨false, false, false, false, false, false⟩, .own, .plain, false⟩, .sibling⟩
+    i.valid = true ∧ i.listed = true ∧ i.relistDropped = true ∧ i.overrideShape = none ∧
+    renderI i = ⟨true, false, .no, .lit .none⟩ ∧ (semI i).mustSupply = false := by decide
+
+/-- dataclasses: `class S(B): n: str` on top of `class B: n: Optional[str] = None` — the parser's field
+is required and nothing is assigned, but `dataclasses` picks the class attribute `B.n = None` up as
+the default of the re-annotated field -/
+theorem dataclass_override_keeps_default_witness :
+    let i : IVec := ⟨⟨.dc, .no, false, .none, .scalar, false, ⟨false, false, false, false, false, false⟩, .own, .plain, false⟩, .owner⟩
+    i.valid = true ∧ (fromInherit i).required = true ∧ renderI i = ⟨false, false, .no, .none⟩ ∧
+    i.dcKeepsDefault = true ∧ (semI i).mustSupply = false := by decide
+
+theorem inherited_relisted_must_supply_refuted : ¬ inherited_relisted_must_supply_full := by
+  intro h
+  have := h ⟨⟨.v2, .no, false, .none, .scalar, false, ⟨false, false, false, false, false, false⟩, .own, .plain, false⟩, .sibling⟩
+    (by decide) (by decide) (by decide) (by decide)
+  revert this; decide
+
+/-- CLAUSES 1/6 for a required-only override in the OWNER form, EXACT: an inherited optional member the
+owner of the allOf lists as required (and that no option relaxes) need not be supplied in the subclass
+precisely (a) for dataclasses when the base's default is a literal (`dcKeepsDefault`), and (b) in the
+three scalar families evaluated on the member as the subclass would declare it (D7, its msgspec
+sibling, pydantic-1 bare `Optional` — all need a schema that admits null). -/
+theorem inherited_override_required_exact (i : IVec) (hv : i.valid = true) (ho : i.relist = .owner)
+    (hr : i.base.inreq = false) (hf : i.base.opts.fo = false)
+    (hu : (i.base.opts.ud && i.base.dflt.given) = false) :
+    let b' : Vec := { i.base with inreq := true, via := .owner }
+    (semI i).mustSupply = false ↔ (i.dcKeepsDefault || d7 b' || d7m b' || v1Bare b') = true := by
+  intro b'
+  have hvia : i.base.via = .own := by
+    simp only [IVec.valid, Bool.and_eq_true, beq_iff_eq] at hv; exact hv.2
+  have hbv : i.base.valid = true := by
+    simp only [IVec.valid, Bool.and_eq_true] at hv; exact hv.1
+  have hov : i.overridden = true := by simp [IVec.overridden, ho]
+  have hred := asOverride_eq_owner i.base hr hvia hf hu
+  have hshape : i.overrideShape = some (render b') := by
+    simp only [IVec.overrideShape, overrideShapeD, hov, if_true, hred]; rfl
+  have hvb' : b'.valid = true := by
+    simp only [Vec.valid, Bool.and_eq_true] at hbv ⊢
+    refine ⟨hbv.1, ?_⟩; simp [b']
+  have hom : b'.omittable = false := by
+    simp only [Vec.omittable, Vec.hasDefault, b', hf, hu]; rfl
+  have hex := effectively_required_exact b' hvb' hom
+  cases hk : i.dcKeepsDefault
+  · -- not the dataclass family: the subclass's declaration alone decides
+    have hsem : semI i = sem b' := by
+      simp only [semI, inheritSem, hshape]
+      split
+      · rename_i hc
+        split
+        · rename_i d hd
+          exfalso
+          simp only [Bool.and_eq_true, beq_iff_eq] at hc
+          simp [IVec.dcKeepsDefault, hc.1, hov, hshape, hc.2, hd] at hk
+        · rfl
+      · rfl
+    rw [hsem, hex]; simp
+  · -- dataclass keeping the literal default of the base
+    simp only [IVec.dcKeepsDefault, Bool.and_eq_true, beq_iff_eq, hshape] at hk
+    obtain ⟨⟨⟨hkd, _⟩, hs⟩, hb⟩ := hk
+    have : (semI i).mustSupply = false := by
+      simp only [semI, inheritSem, hshape, hkd]
+      cases hba : i.baseShape.asg <;> simp [hba] at hb
+      simp [hs, semOf, Asg.default?]
+    simp [this]
+
+/-- … so a required-only override of a member whose schema does not admit null must be supplied in the
+subclass — every kind but the dataclass family, every option vector, every kind of name. -/
+theorem inherited_override_must_supply (i : IVec) (hv : i.valid = true) (ho : i.relist = .owner)
+    (hr : i.base.inreq = false) (hd : i.base.dflt = .none) (hf : i.base.opts.fo = false)
+    (hn : i.base.nullsrc.admitsNull = false) (hx : i.dcKeepsDefault = false) : (semI i).mustSupply = true := by
+  have hu : (i.base.opts.ud && i.base.dflt.given) = false := by simp [hd, Dflt.given]
+  have hex := inherited_override_required_exact i hv ho hr hf hu
+  have hbv : i.base.valid = true := by
+    simp only [IVec.valid, Bool.and_eq_true] at hv; exact hv.1
+  have hvb' : ({ i.base with inreq := true, via := .owner } : Vec).valid = true := by
+    simp only [Vec.valid, Bool.and_eq_true] at hbv ⊢
+    refine ⟨hbv.1, ?_⟩; simp
+  have hom : ({ i.base with inreq := true, via := .owner } : Vec).omittable = false := by
+    simp [Vec.omittable, Vec.hasDefault, hf, hd, Dflt.given]
+  have hfam := mustFamiliesNeedNull' _ hvb' hom hn
+  cases hm : (semI i).mustSupply
+  · have := hex.mp hm
+    simp only [d7, d7m, v1Bare] at this
+    simp only [MustFamiliesNeedNull] at hfam
+    simp [hx] at this
+    simp [Bool.or_eq_false_iff] at hfam
+    rcases this with (h | h) | h <;> simp_all
+  · rfl
+
+/-- CLAUSE 5 for a required-only override: whether the subclass accepts null for the member is what the
+scalar theorems say about the member declared by the subclass in the owner form (the dataclass family
+`dcKeepsDefault` changes the default, not the annotation) — in particular `nullable_accepts_null_exact`
+names the families on which null is rejected (among them `lateStrictNullable`: `nullable` is not
+recomputed for the copy). -/
+theorem inherited_override_null_as_declared_by_owner (i : IVec) (hv : i.valid = true) (ho : i.relist = .owner)
+    (hr : i.base.inreq = false) (hf : i.base.opts.fo = false)
+    (hu : (i.base.opts.ud && i.base.dflt.given) = false) :
+    (semI i).acceptsNull = (sem { i.base with inreq := true, via := .owner }).acceptsNull := by
+  have hvia : i.base.via = .own := by
+    simp only [IVec.valid, Bool.and_eq_true, beq_iff_eq] at hv; exact hv.2
+  have hov : i.overridden = true := by simp [IVec.overridden, ho]
+  have hred := asOverride_eq_owner i.base hr hvia hf hu
+  have hshape : i.overrideShape = some (render { i.base with inreq := true, via := .owner }) := by
+    simp only [IVec.overrideShape, overrideShapeD, hov, if_true, hred]; rfl
+  simp only [semI, hshape, inheritSem_acceptsNull]
+  rfl
+
+/-- the override does not look at `--force-optional` / `--use-default`: a member those options make
+omittable for the schema is required in the subclass all the same -/
+theorem override_ignores_relaxation_witness :
+    let i : IVec := ⟨⟨.v2, .no, false, .none, .scalar, false, ⟨false, false, true, false, false, false⟩, .own, .plain, false⟩, .owner⟩
+    i.valid = true ∧ i.omittable = true ∧ i.overrideIgnoresRelaxation = true ∧
+    renderI i = ⟨false, false, .no, .none⟩ ∧ (semI i).mustSupply = true := by decide
+
+/-! #### TypedDict: the key of a required-only override is required, in both syntaxes -/
+
+theorem tdTag_required (h : Nat) (r : Bool) : tdTagRequired (tdTag h r) = r := by
+  cases r <;> simp [tdTagRequired, tdTag] <;> omega
+
+/-- On top of `Model/TypedDict` (C07's `typedDict_key_type_last_declaration`): whatever the base classes
+declare — any number, any depth, each in the syntax its own members call for — a key the class declares
+(once) carries THE CLASS'S OWN declaration in the class object Python builds, in class syntax
+(`class S(B): name: str`) and in functional syntax (one dict display over `all_fields`, the inherited
+entries first: the last entry of a repeated key wins). -/
+theorem typedDict_own_declaration_of_key_wins (bases : List TdClass) (fields : List TdField) (o : TdField)
+    (ho : o ∈ fields) (hn : (fields.map TdField.key).Nodup) :
+    dictGet o.key (TdClass.cls bases fields).rendered = some o.tag :=
+  rendered_get_of_mem bases fields o ho hn
+
+/-- CLAUSE 1 for TypedDict: the copy `__override_required_field` puts into the subclass's members is a
+REQUIRED declaration of the inherited key; the class Python builds therefore has the key required —
+also when a key that is no identifier (anywhere among the own members) forces the functional syntax. -/
+theorem typedDict_required_override_is_required (bases : List TdClass) (fields : List TdField)
+    (name orig : Option (List Char)) (h : Nat)
+    (ho : (⟨name, orig, tdTag h true⟩ : TdField) ∈ fields) (hn : (fields.map TdField.key).Nodup) :
+    (dictGet (TdField.key ⟨name, orig, tdTag h true⟩) (TdClass.cls bases fields).rendered).map tdTagRequired = some true := by
+  rw [typedDict_own_declaration_of_key_wins bases fields _ ho hn]
+  simp [tdTag_required]
+
+/-- non-vacuity, the shape that matters: the base declares `id` (required), `name` and `display-name` (not
+required; the second key forces functional syntax); the subclass adds `note` and re-declares `name` and
+`display-name` as required. Python's class has five keys, the re-declared ones required. -/
+example :
+    let base := TdClass.cls [] [⟨some "id".toList, some "id".toList, tdTag 0 true⟩,
+      ⟨some "name".toList, some "name".toList, tdTag 1 false⟩,
+      ⟨some "display_name".toList, some "display-name".toList, tdTag 2 false⟩]
+    let sub := TdClass.cls [base] [⟨some "note".toList, some "note".toList, tdTag 3 false⟩,
+      ⟨some "name".toList, some "name".toList, tdTag 1 true⟩,
+      ⟨some "display_name".toList, some "display-name".toList, tdTag 2 true⟩]
+    tdFunctional [⟨some "display_name".toList, some "display-name".toList, tdTag 2 true⟩] = true ∧
+    sub.rendered.map (fun e => (e.1, tdTagRequired e.2)) =
+      [("id".toList, true), ("name".toList, true), ("display-name".toList, true), ("note".toList, false)] := by
+  decide +kernel
+
+/-- What the guarded regression looks like: writing every key of the functional syntax only once is
+harmless when the LAST declaration is kept (that is what Python does with a repeated key anyway) and
+loses the required-only override when the FIRST one — the base's — is kept. -/
+theorem typedDict_keeping_first_declaration_loses_override :
+    let all : List TdField := [⟨some "name".toList, some "name".toList, tdTag 1 false⟩,
+      ⟨some "display_name".toList, some "display-name".toList, tdTag 2 false⟩,
+      ⟨some "name".toList, some "name".toList, tdTag 1 true⟩]
+    (dictGet "name".toList (dictOf (all.map TdField.entry))).map tdTagRequired = some true ∧
+    (dictGet "name".toList (dictOf ((keepFirstGo [] all).map TdField.entry))).map tdTagRequired = some false := by
+  decide +kernel
+
+/-! #### dataclasses / msgspec: the subclass must be creatable -/
+
+/-- a base member with a default followed by a subclass member without one: Python refuses the class
+(dataclasses: `non-default argument follows default argument`; msgspec likewise) — no other kind has
+such a rule -/
+theorem inherited_default_before_required_witness :
+    classOrderOk .dc [(0, .attr)] [(1, .none)] = false ∧ classOrderOk .ms [(0, .attr)] [(1, .none)] = false ∧
+    classOrderOk .dc [(0, .none)] [(1, .none), (2, .attr)] = true := by decide
+
+/-- re-declaring keeps the position; a dataclass re-annotation without `= …` keeps the literal default
+of the base (so the order stays legal and the member stays optional), msgspec does not -/
+theorem reannotation_in_place_witness :
+    mergeDecls .dc [(0, .attr), (1, .attr)] [(1, .none)] = [(0, .attr), (1, .attr)] ∧
+    mergeDecls .ms [(0, .attr), (1, .attr)] [(1, .none)] = [(0, .attr), (1, .none)] ∧
+    classOrderOk .ms [(0, .attr), (1, .attr)] [(1, .none)] = false ∧
+    classOrderOk .ms [(0, .attr), (1, .attr)] [(0, .none)] = true := by decide
+
+theorem class_order_rule_only_for_dataclass_and_msgspec (k : Kind) (hd : k ≠ .dc) (hm : k ≠ .ms)
+    (base own : List Decl) : classOrderOk k base own = true := by
+  cases k <;> first | rfl | exact absurd rfl hd | exact absurd rfl hm
 
 end Dcg.Props.C05
